@@ -7,7 +7,8 @@ carries its history.  Each behaviour is performed on real classes through the pu
 (glom.register / Glommer.register; glom(obj, Path), [T], Assign, Delete, a custom specifier for
 'keys'); the handler that actually ran must be one the LAW allows (VIOLATION otherwise); the
 handler / _op_type_map / _op_type_tree / _type_cache the transcribed MECHANISM predicts are
-compared too (mismatch = DRIFT in the evidence only).
+compared too where the private representation can be read (mismatch = DRIFT in the evidence only;
+unreadable = counted as mechanism_unobservable; neither is a violation).
 code -> spec: random class hierarchies and random longer histories are run on the real library,
 recorded and validated by TLC (spec/Trace_C13.tla) with the same operators.
 """
@@ -118,13 +119,9 @@ def replay_state(st, ops, out):
             if env.live(r):
                 out['drift'].append(dict(what='liveness', fam=st['fam'], hist=hist))
             continue
-        try:
-            proj = env.project(r, ops)
-        except Exception as e:   # internals renamed: cannot bind the mechanism, not a violation
-            out['drift'].append(dict(what='projection failed: %r' % (e,), fam=st['fam'], hist=hist))
-            continue
+        proj = env.project(r, ops)      # only the parts of the private representation that can be read
         for f in ('auto', 'map', 'tree', 'cache'):
-            if proj[f] != regs[r][f]:
+            if f in proj and proj[f] != regs[r][f]:
                 out['drift'].append(dict(what=f, reg=r, fam=st['fam'], hist=hist, model=regs[r][f], real=proj[f]))
                 break
     out['n'] += 1
@@ -138,12 +135,14 @@ def worker(args):
     text, ops = args
     out = dict(n=0, nontrivial=0, lookups=0, bad=[], drift=[], samples=[],
                branches=dict.fromkeys(BRANCHES, 0))
+    real.UNOBSERVABLE.clear()
     try:
         for st in vlib._parse_chunk_text(text):
             replay_state(st, ops, out)
     finally:
         real.restore_default_registry()
     out['drift'] = out['drift'][:5] + [None] * max(0, len(out['drift']) - 5)
+    out['unobservable'] = dict(real.UNOBSERVABLE)
     return out
 
 
@@ -293,6 +292,11 @@ def random_universe(rng, n):
     return classes, names
 
 
+def new_event(env, r):
+    p = env.project(r, ALL_OPS)
+    return dict(a='new', r=r, mech='tree' in p, tree=p.get('tree', []))
+
+
 def record_behaviour(u, names, rng):
     """one random history on the real library -> row {regs, events}"""
     env = real.Env(u)
@@ -305,13 +309,13 @@ def record_behaviour(u, names, rng):
     for r in regs:
         if r != 'default' and rng.random() < 0.5:
             env.new(r)
-            events.append(dict(a='new', r=r, tree=env.project(r, ALL_OPS)['tree']))
+            events.append(new_event(env, r))
     for _ in range(rng.randint(4, 14)):
         n = len(events) + 1
         r = rng.choice(regs)
         if not env.live(r):
             env.new(r)
-            events.append(dict(a='new', r=r, tree=env.project(r, ALL_OPS)['tree']))
+            events.append(new_event(env, r))
             continue
         if rng.random() < 0.5:
             t = rng.choice(fam) if rng.random() < 0.93 else rng.choice(['object', 'dict', 'list'])
@@ -322,7 +326,9 @@ def record_behaviour(u, names, rng):
             exact = rng.random() < 0.3
             env.register(r, t, ops, exact, n, off)
             p = env.project(r, ALL_OPS)
-            events.append(dict(a='reg', r=r, t=t, ops=ops, exact=exact, off=off, tree=p['tree'], map=p['map']))
+            mech = 'tree' in p and 'map' in p
+            events.append(dict(a='reg', r=r, t=t, ops=ops, exact=exact, off=off, mech=mech,
+                               tree=p['tree'] if mech else [], map=p['map'] if mech else []))
         else:
             t = rng.choice(objs)
             op = rng.choice(ALL_OPS)
@@ -333,7 +339,9 @@ def record_behaviour(u, names, rng):
             # an effect no handler of this operation can have (e.g. a handler of another operation ran)
             # is recorded as such and rejected by the specification
             obs = u.consistent_tags(sig, op, t) or [{'o': 'unexpected effect', 'n': 0}]
-            events.append(dict(a='look', r=r, t=t, op=op, obs=obs, cached=env.cached(r, op, t)))
+            cached = env.cached(r, op, t)
+            events.append(dict(a='look', r=r, t=t, op=op, obs=obs, memo=cached is not None,
+                               cached=cached if cached is not None else dict(real.FALSE_H)))
     return dict(regs=regs, events=events)
 
 
@@ -341,19 +349,22 @@ def record_file(args):
     """one trace file = one random universe + many behaviours; returns rows (header first)"""
     seed, nclasses, nbeh = args
     rng = random.Random(seed)
+    real.UNOBSERVABLE.clear()
     classes, names = random_universe(rng, nclasses)
     u = real.Universe(classes)
     tabs = u.observed_tables()
     real.restore_default_registry()
     env = real.Env(u)
+    p = env.project('default', ALL_OPS)
     head = dict(kind='universe', classes=classes, sub=tabs['sub'], inst=tabs['inst'], auto=tabs['auto'], mro=tabs['mro'],
-                known_order=real.known_order(), init=env.project('default', ALL_OPS)['tree'], events=[], regs=['default'])
+                known_order=real.known_order(), mech='tree' in p, init=p.get('tree', []), events=[], regs=['default'])
     rows = [head]
     try:
         for _ in range(nbeh):
             rows.append(record_behaviour(u, names, rng))
     finally:
         real.restore_default_registry()
+    head['unobservable'] = dict(real.UNOBSERVABLE)
     return rows
 
 
@@ -385,6 +396,8 @@ def validate_file(rows):
 
 def record(check, nfiles, nclasses, nbeh, seed, pool, corrupt=False):
     files = pool.map(record_file, [(seed * 1000 + k, nclasses, nbeh) for k in range(nfiles)])
+    for rows in files:
+        note_unobservable(check, rows[0].pop('unobservable', {}))
     if corrupt:
         return files
     with ThreadPoolExecutor(max_workers=min(8, nfiles)) as ex:
@@ -430,6 +443,7 @@ def selftest_corrupted_row(seed):
     """machinery self-test: one observed handler of a recorded behaviour is replaced by a handler nobody
     registered; Trace_C13 must reject exactly that event (law clause)"""
     rows = record_file((seed * 1000 + 999, 8, 30))
+    rows[0].pop('unobservable', None)
     for ri, row in enumerate(rows[1:], 2):
         for ei, e in enumerate(row['events'], 1):
             if e['a'] == 'look':
@@ -440,6 +454,14 @@ def selftest_corrupted_row(seed):
                     raise vlib.MachineryError('corrupted row %d event %d was not rejected: %s' % (ri, ei, rejects[:3]))
                 return dict(row=ri, event=ei, reject=hit[0])
     raise vlib.MachineryError('no lookup event to corrupt')
+
+
+def note_unobservable(check, counts):
+    """parts of the registry's private representation that could not be read (mechanism comparison skipped there;
+    the law-level verdicts do not depend on them)"""
+    d = check.extra.setdefault('mechanism_unobservable', {})
+    for k, v in counts.items():
+        d[k] = d.get(k, 0) + v
 
 
 def note_drift(check, d):
@@ -486,6 +508,7 @@ def main(tier, seed):
                     check.cov['distinct_nontrivial'] += r['nontrivial']
                     check.validated(r['n'])
                     check.extra['lookups_observed'] = check.extra.get('lookups_observed', 0) + r['lookups']
+                    note_unobservable(check, r.get('unobservable', {}))
                     for k, v in r['branches'].items():
                         branches[k] = branches.get(k, 0) + v
                     for s in r['samples']:
@@ -514,6 +537,7 @@ def main(tier, seed):
     finally:
         pool.terminate()
         real.restore_default_registry()
+    note_unobservable(check, real.UNOBSERVABLE)
     check.extra['known_order'] = order
     check.assumptions += [
         'classes are ordinary Python classes (no metaclass tricks, no __iter__ = None, no registration of the two duck types by the user)',
